@@ -40,6 +40,7 @@ func RunConn(server *redis.Server, conn *seq.Conn) (out Outcome) {
 // finished handshake.
 func RunConnTLS(server *redis.Server, conn *seq.Conn, tlsState *tls.ConnectionState) (out Outcome) {
 	vrt.SetSeqClock(FixedClock)
+	vrt.ResetRand()
 	vrt.ResetTicks()
 	inner := conn.OnRead
 	conn.OnRead = func(delivered int, starving bool) {
